@@ -284,8 +284,26 @@ def check_summary(ctx, rel, fn, lab, s, args, fq):
         hy_tab = TableHyps(tabs, {k: f(args) for k, f in RANGE.get(fn, {}).items()}, INJECTIVE.get(fn, []), CUSTOM.get(fn))
         n = independence(ctx, lab, s, hyps, hy_tab, fq)
         scalar_obligations(ctx, lab, s, fq)
+        flush_obligations(ctx, lab, s, fq)
         if fn in PARTITIONS:
             PARTITIONS[fn](ctx, fn, s, args, hyps, fq)
+
+
+def flush_obligations(ctx, label, sym, fq):
+    """Code inside critical / atomic that is not in a worksharing loop runs once on EVERY thread.  An accumulating update of shared memory there must add
+    that thread's own partial result (content of a thread-private array, a private scalar accumulated in the worksharing loop); adding a quantity that
+    is the same on every thread — a reduction-clause variable, a shared scalar, a function of shared data only — is repeated team-size times, and the
+    result depends on the number of threads."""
+    n = 0
+    for e in sym.events:
+        if e.kind != "w" or e.op not in ("+=", "-=") or e.arr.private or not e.extra or e.extra[0] != "every-thread-exclusive":
+            continue
+        n += 1
+        v = tm.lift(e.val)
+        partial = any((u.op == "v" and u.args[0].startswith("anyp#")) or (u.op == "f" and u.args[0].startswith("tpart:")) for u in tm.subterms(v).values())
+        ctx.holds("%s.flush[%s[%s] %s ...] adds the thread's own partial result (not a team-wide total once per thread)" % (label, e.arr.name, tm.show(e.idx, 40), e.op),
+                  partial or v is tm.ZERO, "the value added inside the critical section is the same on every thread: %s" % tm.show(v, 100), fq)
+    return n
 
 
 def scalar_obligations(ctx, label, sym, fq):
@@ -567,7 +585,7 @@ PARTITIONS = {
 
 
 def units():
-    u = [("registry", unit_registry)]
+    u = [("registry", unit_registry), ("scratch-ownership", unit_scratch_ownership)]
     for rel, fn in omp_functions():
         u.append(("%s/%s" % (os.path.basename(rel), fn), unit_function(rel, fn)))
     return u
@@ -582,6 +600,46 @@ def expected_verified():
         p = os.path.join(os.path.dirname(os.path.abspath(__file__)), "c10_expected.json")
         _EXPECTED[0] = set(json.load(open(p))) if os.path.exists(p) else set()
     return _EXPECTED[0]
+
+
+def unit_scratch_ownership(ctx):
+    """The harmonics recursion writes and re-reads the scratch arrays inside its sphbuf argument, so a sphbuf (or a list of them) used inside a parallel
+    region must be owned by the thread: declared inside the region.  Ownership contract on the syntax tree of every OpenMP function of the anchored files
+    (the functions that call the recursion are outside the footprint engine's subset, so this is the clause that stands in for their race obligation)."""
+    from cvc.csym import _walk
+
+    def _calls_with_shared_buffer(tu, fn):
+        """names of sphbuf-typed variables declared outside a region-creating directive (omp parallel / parallel for) and passed to a call inside it"""
+        f = tu.function(fn)
+        decl = lambda node: set(x["name"] for x in _walk(node) if x.get("kind") == "VarDecl" and "sphbuf" in x.get("type", {}).get("qualType", ""))
+        allb = decl(f)
+        hits = set()
+        for x in _walk(f):
+            if x.get("kind") in ("OMPParallelDirective", "OMPParallelForDirective"):
+                outside = allb - decl(x)
+                for c in _walk(x):
+                    if c.get("kind") == "CallExpr":
+                        for a in _walk(c):
+                            if a.get("kind") == "DeclRefExpr" and a.get("referencedDecl", {}).get("name") in outside:
+                                hits.add(a["referencedDecl"]["name"])
+        return sorted(hits)
+    n = 0
+    for rel in FILES + HELPER_TUS:
+        try:
+            tu = cparse.load(rel)
+        except Exception:
+            continue
+        for fn, node in tu.functions.items():
+            if not has_omp(node):
+                continue
+            src_has = any("sphbuf" in x.get("type", {}).get("qualType", "") for x in __import__("cvc.csym", fromlist=["_walk"])._walk(node) if x.get("kind") == "VarDecl")
+            if not src_has:
+                continue
+            n += 1
+            shared = _calls_with_shared_buffer(tu, fn)
+            ctx.holds("%s:%s every harmonics scratch buffer used inside a parallel region is declared inside it (thread-owned)" % (rel.split("/")[-1], fn), not shared,
+                      "declared outside the region and passed to a call inside it: %s" % shared, ["lib/%s:%s" % (rel, fn)])
+    ctx.holds("scratch ownership: OpenMP functions that use a harmonics buffer were found", n >= 3, "%d" % n, [])
 
 
 def unit_registry(ctx):
